@@ -59,6 +59,13 @@ def firstWordGo (s : MS) : Nat → Nat → Option Nat
     else if s.isNlAt i then none
     else firstWordGo s fuel (i + 1)
 
+/-- first non-blank of the line `p ..< e` (stays on the last grapheme of a blank line) -/
+def skipBlanks (s : MS) (e : Nat) : Nat → Nat → Nat
+  | 0, p => p
+  | f + 1, p =>
+    if p + 1 < e && (s.ws[p]?.getD false) && !s.isNlAt p && decide (p + 1 < s.max) && !s.isNlAt (p + 1)
+    then skipBlanks s e f (p + 1) else p
+
 inductive SMotion where
   | forwardChar | backwardChar | bol | eol | firstWord | bob | eob | toColumn | wholeBuffer
   deriving Repr, BEq, DecidableEq
@@ -79,8 +86,21 @@ def evalSimple (s : MS) (m : SMotion) (count : Nat) (hasVerb : Bool) : MK :=
         if !hasVerb && s.isNlAt pos && pos > 0 && !s.isNlAt (pos - 1) then MK.on (pos - 1) else MK.on pos)
       (if pos0 > 0 && s.isNlAt (pos0 - 1) then pos0 - 1 else pos0)
   | .firstWord => match firstWordGo s (s.max + 1) s.sol with | some p => .on p | none => .null
-  | .bob => .lineOffset (-(cursorLine s.lb : Int))
-  | .eob => .lineOffset ((totalLines s.gs : Int) - (cursorLine s.lb : Int))
+  -- as plain motions `gg`/`G` go to the first non-blank of the first/last line; with an operator or a
+  -- selection they are the linewise offset to that line (fix 1a27068: the position after a final newline
+  -- is not a line)
+  | .bob =>
+    if !hasVerb && !s.selecting then
+      match lineBounds s.gs 0 with
+      | some b => .on (skipBlanks s b.2 (b.2 - b.1) b.1)
+      | none => .null
+    else .lineOffset (-(cursorLine s.lb : Int))
+  | .eob =>
+    if !hasVerb && !s.selecting then
+      match lineBounds s.gs (lastLineNumber s.gs) with
+      | some b => .on (skipBlanks s b.2 (b.2 - b.1) b.1)
+      | none => .null
+    else .lineOffset ((lastLineNumber s.gs - cursorLine s.lb : Nat) : Int)
   | .toColumn => .on (min (s.sol + (count - 1)) s.max)
   | .wholeBuffer => .exclusive 0 s.max
 
